@@ -196,7 +196,7 @@ func init() {
 			"location oracle = the reference model's (container, key|index) for the i-th result; the sentinel written is unique, so a write to any other location is visible in the diff even where leaves are equal",
 		},
 		Bounds: map[string]string{
-			"quick":    "paths of <=2 steps over the 50-step alphabet (+7 trailing functions, for Set==nil) and 3..4 steps over the 16-step alphabet; documents: every JSON document of <=4 nodes plus every container shape of <=5 nodes with pairwise distinct leaves; every result index",
+			"quick":    "paths of <=2 steps over the 50-step alphabet (+7 trailing functions, for Set==nil) and 3 steps over the 16-step alphabet; documents: every JSON document of <=4 nodes plus every container shape of <=5 nodes with pairwise distinct leaves; every result index",
 			"thorough": "paths of <=3 steps over the 50-step alphabet, 4 over 16, 5 over 8; documents of <=5 nodes plus every shape of <=6 nodes with distinct leaves; every result index",
 		},
 		New: func(tier string) run.Job {
@@ -206,7 +206,7 @@ func init() {
 			}
 			return &productJob{
 				id:        "C13",
-				units:     unitsOf(ls),
+				units:     shallowQuick(tier, unitsOf(ls)),
 				ds:        c13Docs(tier),
 				env:       impl.NewEnv(),
 				oracle:    c13Oracle,
